@@ -41,7 +41,8 @@ type H5Cfg struct {
 	Weights       []float64 `json:"weights,omitempty"`
 	Rates         []int     `json:"rates,omitempty"` // scripted underlying rate per evaluation (cyclic)
 	RandBeyond    bool      `json:"rand_beyond,omitempty"`
-	Direct        bool      `json:"direct,omitempty"` // evaluate with a plain ticker loop instead of the real pool (large rates)
+	BodyNs        []int64   `json:"body_ns,omitempty"` // duration of the k-th started iteration (cyclic); empty = instantaneous
+	Direct        bool      `json:"direct,omitempty"`  // evaluate with a plain ticker loop instead of the real pool (large rates)
 }
 
 type h5Call struct {
@@ -64,6 +65,16 @@ type h5Shared struct {
 	buildErr    string
 	finished    bool
 	stagedT0    int64
+}
+
+// beginBody counts a started iteration and returns its planned duration (atomic: no scheduling points here).
+func (sh *h5Shared) beginBody(c *H5Cfg) int64 {
+	k := sh.started
+	sh.started++
+	if len(c.BodyNs) == 0 {
+		return 0
+	}
+	return c.BodyNs[int(k)%len(c.BodyNs)]
 }
 
 func (sh *h5Shared) logOuter(env *Env, t time.Time, v int) {
@@ -256,6 +267,21 @@ func (h5) Gen(prop, tier string, r *simrt.Rng) (any, simrt.Config) {
 		ticks := int64(10 + r.Intn(maxTicks))
 		c.RunNs = ticks*c.FreqMs*ms + odd(r)
 	}
+	if r.Intn(2) == 0 && c.Kind != "gaussian" {
+		// slow iterations: a backlog builds up, ticks supersede it (checked against the reference pool)
+		iv := c.FreqMs
+		if c.Kind == "ramp" {
+			iv = c.RampUnitMs
+		}
+		if (c.Dist == "regular" || c.Dist == "random") && iv > 100 {
+			iv = 100
+		}
+		for i, n := 0, 1+r.Intn(6); i < n; i++ {
+			base := simrt.Pick(r, int64(0), iv*ms/3, iv*ms, iv*ms*5/2, iv*ms*7)
+			c.BodyNs = append(c.BodyNs, base+int64(1+2*i)*1013+int64(r.Intn(400))*2)
+		}
+		c.Concurrency = 1 + r.Intn(3)
+	}
 	// requests are executed by a small pool: keep the volume of work bounded (dropped requests cost steps too)
 	var big int64
 	for _, v := range c.Rates {
@@ -387,6 +413,26 @@ func h5Cadence(env *Env, c *H5Cfg, sh *h5Shared, stats simrt.Stats) {
 			if got != sum {
 				env.Violate("C09", "requests-lost", "cadence/"+c.Kind, "rate evaluations sum to %d, but started %d + dropped %d = %d", sum, sh.started, sh.dropped, got)
 			}
+		}
+	}
+	// refinement: the pool must behave like the reference pool fed with exactly the evaluated values
+	if stats.Stalls == 0 && !c.Direct && c.RunNs%iv != 0 {
+		var at []int64
+		var sizes []int
+		for _, call := range sh.outer {
+			at = append(at, call.CallNs)
+			sizes = append(sizes, call.V)
+		}
+		mo := poolModel(c.Concurrency, 0, sizes, c.BodyNs, at, sh.trigStartNs+c.RunNs)
+		if uint64(mo.started) != sh.started || mo.dropped != sh.dropped {
+			for _, p := range []string{"C09", "C02"} {
+				env.Violate(p, "pool-differs-from-reference", "cadence/model", "%d iterations started and %d dropped; a %d-worker reference pool given exactly the evaluated values (%s…) at their instants starts %d and drops %d (bodies %v)",
+					sh.started, sh.dropped, c.Concurrency, fmtVals(sh.outer), mo.started, mo.dropped, c.BodyNs)
+			}
+		}
+		env.Hit("h5.model_checked")
+		if len(c.BodyNs) > 0 && mo.dropped > 0 {
+			env.Hit("h5.model_checked_with_backlog")
 		}
 	}
 	if sh.recorded != sh.started {
